@@ -952,6 +952,65 @@ generated_val!(GPayload, crate::gen::sink::Payload, |r: &mut Rng| {
 
 const N_TYPES: u64 = 21;
 
+/// The doubles a value holds at *value* positions, in iteration (= comparison) order.
+trait Doubles {
+    fn doubles_mut(&mut self) -> Vec<&mut f64>;
+}
+
+impl Doubles for f64 {
+    fn doubles_mut(&mut self) -> Vec<&mut f64> {
+        vec![self]
+    }
+}
+
+impl<T: Doubles> Doubles for Option<T> {
+    fn doubles_mut(&mut self) -> Vec<&mut f64> {
+        self.iter_mut().flat_map(|v| v.doubles_mut()).collect()
+    }
+}
+
+impl<T: Doubles> Doubles for Vec<T> {
+    fn doubles_mut(&mut self) -> Vec<&mut f64> {
+        self.iter_mut().flat_map(|v| v.doubles_mut()).collect()
+    }
+}
+
+impl<K: Ord, V: Doubles> Doubles for BTreeMap<K, V> {
+    fn doubles_mut(&mut self) -> Vec<&mut f64> {
+        self.values_mut().flat_map(|v| v.doubles_mut()).collect()
+    }
+}
+
+/// "NaN greatest" inside containers: two values of identical shape that differ in exactly one double, which is NaN in the
+/// second, compare Less / Greater - at every position a double can take (list items, optional contents, map values, nested).
+fn nan_in_place<T>(rep: &mut Report, sub: &str, seed: u64, ty: &str, r: &mut Rng)
+where
+    T: Val + ViaOps,
+    T::Inner: Doubles + Clone + std::fmt::Debug,
+{
+    for _ in 0..8 {
+        let a = T::gen(r);
+        let mut ai = a.inner().clone();
+        let mut bi = ai.clone();
+        let n = ai.doubles_mut().len();
+        if n == 0 {
+            continue;
+        }
+        let at = r.below(n);
+        if ai.doubles_mut()[at].is_nan() {
+            *ai.doubles_mut()[at] = *r.pick(&[0.0, -0.0, 1.5, f64::INFINITY, f64::NEG_INFINITY, f64::MAX, -1e300]);
+        }
+        *bi.doubles_mut()[at] = f64::from_bits(*r.pick(&[0x7ff8_0000_0000_0000u64, 0xfff8_0000_0000_0000, 0x7ff0_0000_0000_0001]));
+        rep.evaluations += 1;
+        rep.cell(&format!("nan-in-place/{}", ty));
+        let (ab, ba) = (DoubleOps::cmp(&ai, &bi), DoubleOps::cmp(&bi, &ai));
+        if ab != Ordering::Less || ba != Ordering::Greater || DoubleOps::eq(&ai, &bi) {
+            rep.violation(sub, seed, format!("{}:nan-not-greatest-in-place", ty),
+                json!({"type": ty, "a": format!("{:?}", ai), "b (NaN at double #)": at, "b": format!("{:?}", bi), "cmp(a,b)": format!("{:?}", ab), "cmp(b,a)": format!("{:?}", ba)}));
+        }
+    }
+}
+
 fn case(rep: &mut Report, sub: &str, seed: u64) {
     let mut rng = Rng::new(seed);
     let r = &mut rng;
@@ -960,6 +1019,7 @@ fn case(rep: &mut Report, sub: &str, seed: u64) {
             let p = pool::<$t>(r);
             check_pool(rep, sub, seed, $name, &p, None);
             check_direct(rep, sub, seed, $name, &p);
+            nan_in_place::<$t>(rep, sub, seed, $name, r);
         }};
     }
     {
